@@ -123,6 +123,31 @@ def _bex_run_chunk(items):
     return [_bex_run(it) for it in items]
 
 
+def pool_map(fn, items, nproc, init, initargs, flatten=False):
+    """Map over forked worker processes; a worker that dies (e.g. a segfault inside a C
+    extension) is a harness error, never a silent hang."""
+    from concurrent.futures import ProcessPoolExecutor, as_completed
+    from concurrent.futures.process import BrokenProcessPool
+
+    out = []
+    ctx = mp.get_context('fork')
+    with ProcessPoolExecutor(max_workers=nproc, mp_context=ctx, initializer=init, initargs=initargs) as ex:
+        futs = {ex.submit(fn, it): i for i, it in enumerate(items)}
+        try:
+            for f in as_completed(futs):
+                r = f.result()
+                if flatten:
+                    out.extend(r)
+                else:
+                    out.append((futs[f], r))
+        except BrokenProcessPool as e:
+            raise HarnessError(f'a worker process died while executing cases (segfault in a C extension?): {e}') from e
+    if not flatten:
+        out.sort(key=lambda x: x[0])
+        out = [r for _, r in out]
+    return out
+
+
 def run_bex(mod, tier, seed):
     """Bounded-exhaustive enumeration: every case of every declared sub-lattice is
     executed on the real code; nothing is sampled."""
@@ -141,10 +166,7 @@ def run_bex(mod, tier, seed):
     chunks = [[items[i] for i in order[k : k + chunk]] for k in range(0, len(order), chunk)]
     results = []
     nproc = min(NPROC, max(1, len(chunks)))
-    ctx = mp.get_context('fork')
-    with ctx.Pool(nproc, initializer=_bex_init, initargs=(mod.__name__, tier, seed)) as pool:
-        for out in pool.imap_unordered(_bex_run_chunk, chunks):
-            results.extend(out)
+    results = pool_map(_bex_run_chunk, chunks, nproc, _bex_init, (mod.__name__, tier, seed), flatten=True)
     results.sort(key=lambda r: r[0])
     outcomes = Counter()
     nontrivial = set()
